@@ -11,6 +11,7 @@ from numpy.typing import NDArray  # noqa: TC002
 from ropt.config.enopt import EnOptConfig
 from ropt.ensemble_evaluator import EnsembleEvaluator
 from ropt.enums import EventType, OptimizerExitCode
+from ropt.exceptions import OptimizationAborted
 from ropt.optimization import EnsembleOptimizer
 from ropt.plan import Event, Plan
 from ropt.plugins.plan.base import PlanStep
@@ -90,13 +91,17 @@ class DefaultOptimizerStep(PlanStep):
         self._nested_optimization = nested_optimization
         self._metadata = metadata
 
-        self.emit_event(
-            Event(
-                event_type=EventType.START_OPTIMIZER_STEP,
-                config=self._config,
-                source=self.id,
+        try:
+            self.emit_event(
+                Event(
+                    event_type=EventType.START_OPTIMIZER_STEP,
+                    config=self._config,
+                    source=self.id,
+                )
             )
-        )
+        except OptimizationAborted as exc:
+            # Aborted before the optimization could start:
+            return self._finish(exc.exit_code)
 
         if variables is None:
             variables = self._config.variables.initial_values
@@ -123,19 +128,23 @@ class DefaultOptimizerStep(PlanStep):
             msg = "Nested optimization detected: parallel evaluation not supported. "
             raise RuntimeError(msg)
 
-        exit_code = ensemble_optimizer.start(variables)
+        return self._finish(ensemble_optimizer.start(variables))
 
+    def _finish(self, exit_code: OptimizerExitCode) -> OptimizerExitCode:
         if exit_code == OptimizerExitCode.USER_ABORT:
             self.plan.abort()
-
-        self.emit_event(
-            Event(
-                event_type=EventType.FINISHED_OPTIMIZER_STEP,
-                config=self._config,
-                source=self.id,
+        try:
+            self.emit_event(
+                Event(
+                    event_type=EventType.FINISHED_OPTIMIZER_STEP,
+                    config=self._config,
+                    source=self.id,
+                )
             )
-        )
-
+        except OptimizationAborted as exc:
+            exit_code = exc.exit_code
+            if exit_code == OptimizerExitCode.USER_ABORT:
+                self.plan.abort()
         return exit_code
 
     def emit_event(self, event: Event) -> None:
@@ -185,8 +194,10 @@ class DefaultOptimizerStep(PlanStep):
         self._nested_optimization.set_parent(self.plan)
         results = self._nested_optimization.run_function(variables)
         if self._nested_optimization.aborted:
+            # An aborted nested optimization may not have produced any result:
             self.plan.abort()
+            return None, True
         if not isinstance(results, FunctionResults):
             msg = "Nested optimization must return a FunctionResults object."
             raise TypeError(msg)
-        return results, self._nested_optimization.aborted
+        return results, False
